@@ -233,6 +233,9 @@ mod par_iter;
 mod params;
 /// Common structs, enums and traits.
 pub mod prelude;
+/// Observation-only hooks of the parallel runner for verification harnesses.
+#[cfg(feature = "verif-hooks")]
+pub mod verif;
 
 pub use chunk_size::ChunkSize;
 pub use into::{as_par::AsPar, into_par::IntoPar, iter_into_par::IterIntoPar};
